@@ -72,15 +72,19 @@ func caseGen() *rapid.Generator[Case] {
 		if rapid.IntRange(0, 3).Draw(t, "override") == 0 {
 			return ov.Draw(t, "ov")
 		}
+		if gen.Rarely(t, "nested", 8) {
+			in := plain.Draw(t, "inner")
+			return gen.Item{K: rapid.SampledFrom([]string{"cell", "pcell"}).Draw(t, "nest"), In: &in}
+		}
 		return plain.Draw(t, "plain")
 	})
 	sg := gen.ScriptGen(gen.ScriptOpts{
-		AllowMutate: true,
-		Item:        item,
-		MinOps:      1,
-		MaxOps:      max,
-		MaxCells:    5,
-		Creators:    []string{"core", "core", "texttable"},
+		AllowProps: true, AllowRowErr: true, AllowMutate: true,
+		Item:     item,
+		MinOps:   1,
+		MaxOps:   max,
+		MaxCells: 5,
+		Creators: []string{"core", "core", "texttable"},
 	})
 	dg := gen.DecoGen()
 	return rapid.Custom(func(t *rapid.T) Case {
